@@ -282,9 +282,10 @@ def verify_unit(unit, digit, mode, canary=False, use_cache=True):
         open(path, 'w').write(text)
         res = run_verus(path, multiple_errors=(200 if canary else 8))
         own = [it for it in g.items if it.entry.unit == unit and it.kind in ('fn', 'const', 'proof') and not getattr(it, 'assumed', False) and not getattr(it, 'lifted', False)]
-        lifted_keys = sorted({it.key for it in g.items if it.kind == 'fn' and getattr(it, 'lifted', False)})
-        assumed_keys = sorted({it.key for it in g.items if it.kind in ('fn', 'const') and it.assumed})
-        stubs_used = sorted(it.key for it in g.items if it.entry.unit != unit and it.kind in ('fn', 'const'))
+        lifted_keys = sorted({it.key for it in g.effective_items(unit) if it.kind == 'fn' and getattr(it, 'lifted', False)})
+        eff = g.effective_items(unit)
+        assumed_keys = sorted({it.key for it in eff if it.kind in ('fn', 'const') and it.assumed})
+        stubs_used = sorted(it.key for it in eff if it.entry.unit != unit and it.kind in ('fn', 'const'))
         crate = tag
         items = []
         byname = {}
